@@ -132,13 +132,13 @@ namespace adept {
       // numbers.
       void push_lhs_range(const uIndex& first, const uIndex& n, 
 			  const uIndex& stride = 1) {
-	uIndex last_plus_1 = first+n*stride;
 #ifndef ADEPT_MANUAL_MEMORY_ALLOCATION
 	if (n_statements_+n > n_allocated_statements_) {
 	  grow_statement_stack(n);
 	}
 #endif
-	for (uIndex i = first; i != last_plus_1; i += stride) {
+	uIndex i = first;
+	for (uIndex k = 0; k < n; ++k, i += stride) {
 	  statement_[n_statements_].index = i;
 	  statement_[n_statements_++].end_plus_one = n_operations_;
 	}
